@@ -435,39 +435,78 @@ def _key_line(k):
     return "resolveQ %d" % k[0] if k[2] else "resolveP %d %d" % (k[0], k[1])
 
 
-def _bringup(world, rng, order, policy, lines, outs):
-    """run the start events in `order` with resolve/tick interleaving per `policy`; then settle"""
-    def do(line):
-        lines.append(line)
-        outs.append(world.op(line))
+class MemRun:
+    """Executes meta-ops on a MemWorld, records the concrete model lines and the real observations, and judges.
 
-    for ev in order:
-        do(ev)
-        if policy == "eager":
-            for k in world.open_keys():
-                do(_key_line(k))
-        elif policy == "random":
-            for _ in range(rng.randrange(0, 4)):
-                r = rng.random()
-                ks = world.open_keys()
-                if r < 0.6 and ks:
-                    do(_key_line(ks[rng.randrange(len(ks))]))
-                else:
-                    do("tick %d" % rng.choice([1, 2, 3, 5, 8, world.retry, world.retry + 1]))
-    # everything has started: "each pending attempt fires once more", possibly more than once
-    rounds = 0
-    while rounds < 4:
-        rounds += 1
-        do("tick %d" % world.retry)
-        for k in world.open_keys():
-            do(_key_line(k))
-        if not world.open and not world.timers():
-            break
-    return rounds
+    meta-ops: `netstart` `netstop` `running` `startV i` `startQ i` `resolveP i j` `resolveQ i` `tick d`, and
+    `settle` = "each pending attempt fires once more": rounds of (tick retry; decide every open attempt), at most 4,
+    until nothing is pending (expanded into concrete tick/resolve lines for the model)."""
+
+    def __init__(self, n, retry):
+        self.world = MemWorld(n, retry)
+        self.n, self.retry = n, retry
+        self.mops = []
+        self.lines = ["world %d %d" % (n, retry)]
+        self.outs = [self.world.obs()]
+        self.viol = []
+        self.rounds = None          # rounds the last settle needed; None = events since
+        self.dead = False           # start raised: nothing more can be said
+
+    def _do(self, line):
+        self.lines.append(line)
+        o = self.world.op(line)
+        self.outs.append(o)
+        return o
+
+    def do(self, mop):
+        if self.dead:
+            return
+        w = self.world
+        self.mops.append(mop)
+        if mop == "netstart":
+            o = self._do(mop)
+            self.rounds = None
+            if o.startswith("AssertionError"):
+                self.viol.append(("start-after-stop:AssertionError",
+                                  "Network.start() after stop() on the same object raises %s" % o))
+                self.dead = True
+            elif not all(p.is_alive() for p in w.net.processes):
+                self.viol.append(("mem:start-leaves-dead", "processes not alive after start: %s" % o))
+        elif mop == "netstop":
+            o = self._do(mop)
+            self.rounds = None
+            if any(p.is_alive() for p in w.net.processes):
+                self.viol.append(("mem:stop-leaves-alive", "processes alive after stop: %s" % o))
+        elif mop == "settle":
+            rounds = 0
+            while rounds < 4:
+                rounds += 1
+                self._do("tick %d" % self.retry)
+                for k in w.open_keys():
+                    self._do(_key_line(k))
+                if not w.open and not w.timers():
+                    break
+            self.rounds = rounds
+        elif mop == "running":
+            o = self._do(mop)
+            everything_ran = all(p.is_alive() and p.up for p in w.net.processes)
+            if everything_ran and self.rounds is not None:
+                # the statement, judged on the real objects (independent of the model)
+                self.viol += _judge_mem_final(w, self.rounds)
+                if not o.endswith("ans=1"):
+                    self.viol.append(("mem:not-running", "Network.running is false after everything came up"))
+        else:
+            self._do(mop)
+            self.rounds = None
+
+    def finish(self):
+        self.viol += self.world.problems
+        self.world.close()
+        return self
 
 
 def _judge_mem_final(world, rounds):
-    """oracle O3 (independent of the model): after all 2n bodies ran and the attempts fired again, the statement"""
+    """oracle (independent of the model): after all 2n bodies ran and the attempts fired again, the statement"""
     bad = []
     names = set(range(world.n))
     lst = world.listening()
@@ -487,43 +526,87 @@ def _judge_mem_final(world, rounds):
     return bad
 
 
-def _mem_scenario(res, ctx, n, retry, cycles, orders, policy, tag):
-    """one world: `cycles` times netstart -> bring-up in the given order -> running -> netstop"""
-    rng = ctx.rng
-    world = MemWorld(n, retry)
-    lines, outs = ["world %d %d" % (n, retry)], [None]
-    replay = {"kind": "mem", "n": n, "retry": retry, "policy": policy, "tag": tag}
-    viol = []
+def _mem_exec(n, retry, mops):
+    run = MemRun(n, retry)
     try:
-        outs[0] = world.obs()
-        for c in range(cycles):
-            lines.append("netstart")
-            o = world.op("netstart")
-            outs.append(o)
-            if o.startswith("AssertionError"):
-                viol.append(("start-after-stop:AssertionError",
-                             "Network.start() after stop() on the same object raises %s" % o))
-                break
-            if not all(p.is_alive() for p in world.net.processes):
-                viol.append(("mem:start-leaves-dead", "processes not alive after start: %s" % o))
-            rounds = _bringup(world, rng, orders[c], policy, lines, outs)
-            lines.append("running")
-            o = world.op("running")
-            outs.append(o)
-            viol += _judge_mem_final(world, rounds)
-            if not o.endswith("ans=1"):
-                viol.append(("mem:not-running", "Network.running is false with every QNodeOS listening"))
-            res.count("mem-rounds-%d" % rounds)
-            lines.append("netstop")
-            o = world.op("netstop")
-            outs.append(o)
-            if any(p.is_alive() for p in world.net.processes):
-                viol.append(("mem:stop-leaves-alive", "processes alive after stop: %s" % o))
-        viol += world.problems
+        for m in mops:
+            run.do(m)
     finally:
-        world.close()
-    replay["ops"] = lines
-    return lines, outs, viol, replay
+        run.finish()
+    return run
+
+
+def _mem_scenario(res, ctx, n, retry, orders, policy):
+    """one world: per cycle netstart -> the 2n bodies in the given order, the adversary deciding attempts and
+    moving the clock per `policy` -> settle -> running -> netstop"""
+    rng = ctx.rng
+    run = MemRun(n, retry)
+    w = run.world
+    try:
+        for order in orders:
+            run.do("netstart")
+            if run.dead:
+                break
+            for ev in order:
+                run.do(ev)
+                if policy == "eager":
+                    for k in w.open_keys():
+                        run.do(_key_line(k))
+                elif policy == "random":
+                    for _ in range(rng.randrange(0, 4)):
+                        ks = w.open_keys()
+                        if rng.random() < 0.6 and ks:
+                            run.do(_key_line(ks[rng.randrange(len(ks))]))
+                        else:
+                            run.do("tick %d" % rng.choice([1, 2, 3, 5, 8, retry, retry + 1]))
+            run.do("settle")
+            run.do("running")
+            res.count("mem-rounds-%s" % run.rounds)
+            run.do("netstop")
+    finally:
+        run.finish()
+    return run
+
+
+def _ddmin(items, fails):
+    """greedy chunk removal: a sublist (order kept) on which `fails` still holds and no single item can go"""
+    items = list(items)
+    chunk = max(1, len(items) // 2)
+    while True:
+        i, progressed = 0, False
+        while i < len(items):
+            cand = items[:i] + items[i + chunk:]
+            if len(cand) < len(items) and fails(cand):
+                items, progressed = cand, True
+            else:
+                i += chunk
+        if chunk == 1:
+            if not progressed:
+                break
+        else:
+            chunk //= 2
+    return items
+
+
+def _shrink(replay, key, budget=400):
+    """shrink a mem / table replay to a (locally) minimal one that still shows a violation with this key"""
+    left = [budget]
+
+    if replay.get("kind") == "mem":
+        def fails(mops):
+            if left[0] <= 0:
+                return False
+            left[0] -= 1
+            return any(k == key for k, _ in _mem_exec(replay["n"], replay["retry"], mops).viol)
+        return dict(replay, ops=_ddmin(replay["ops"], fails))
+    if replay.get("kind") == "table":
+        def fails(ops):
+            if left[0] <= 0:
+                return False
+            left[0] -= 1
+            return any(k == key for k, _ in _table_scenario(None, None, replay["n"], ops)[2])
+        return dict(replay, ops=_ddmin(replay["ops"], fails))
+    return replay
 
 
 def _table_scenario(res, ctx, n, ops):
@@ -900,6 +983,8 @@ def run(ctx):
                 res.count("unfixed-model-agrees")
 
     for key, (what, replay, _sz) in sorted(violations.items(), key=lambda kv: kv[1][2]):
+        if not ctx.replay:
+            replay = _shrink(replay, key)
         res.violation(key, what, replay)
     return res
 
@@ -909,35 +994,24 @@ def _run_mem(ctx, res, rng, add_viol, batches, extra):
         return ["startV %d" % i for i in range(n)] + ["startQ %d" % i for i in range(n)]
 
     def mem(n, retry, orders, policy, tag):
-        lines, outs, viol, replay = _mem_scenario(res, ctx, n, retry, len(orders), orders, policy, tag)
-        case = {"n": n, "retry": retry, "policy": policy, "ops": lines}
+        run = _mem_scenario(res, ctx, n, retry, orders, policy)
+        case = {"n": n, "retry": retry, "policy": policy, "ops": run.mops}
         res.case(case, nontrivial=n >= 2)
         res.count("mem-n%d-%s" % (n, policy))
-        res.count("mem-events", len(lines))
-        for key, what in viol:
-            add_viol(key, "in-memory, %d nodes: %s" % (n, what), replay)
-        batches.append((lines, outs, {"n": n, "retry": retry, "policy": policy, "tag": tag}, "mem"))
+        res.count("mem-events", len(run.lines))
+        for key, what in run.viol:
+            add_viol(key, "in-memory, %d nodes: %s" % (n, what),
+                     {"kind": "mem", "n": n, "retry": retry, "policy": policy, "tag": tag, "ops": run.mops})
+        batches.append((run.lines, run.outs, {"n": n, "retry": retry, "policy": policy, "tag": tag}, "mem"))
 
     if ctx.replay:
         inp = ctx.replay["input"]
         if inp.get("kind") == "mem":
-            # re-run the recorded op list verbatim
-            world = MemWorld(inp["n"], inp["retry"])
-            lines, outs = [inp["ops"][0]], [world.obs()]
-            try:
-                for ln in inp["ops"][1:]:
-                    lines.append(ln)
-                    o = world.op(ln)
-                    outs.append(o)
-                    if o.startswith("AssertionError"):
-                        add_viol("start-after-stop:AssertionError", "Network.start() after stop(): %s" % o, inp)
-                        break
-                for key, what in world.problems:
-                    add_viol(key, what, inp)
-            finally:
-                world.close()
+            run = _mem_exec(inp["n"], inp["retry"], inp["ops"])
             res.case({"replay": inp["ops"]})
-            batches.append((lines, outs, {"replay": True}, "mem"))
+            for key, what in run.viol:
+                add_viol(key, "in-memory, %d nodes: %s" % (inp["n"], what), inp)
+            batches.append((run.lines, run.outs, {"replay": True}, "mem"))
         elif inp.get("kind") == "table":
             lines, outs, viol, probe = _table_scenario(res, ctx, inp["n"], inp["ops"])
             res.case({"replay": inp["ops"]})
